@@ -68,6 +68,18 @@ class Triples(Stream):
         def vals(c):
             return [c.__dict__[f] for f in fs]
         a, b, c = (mk(v) for v in case)
+
+        def hist(l):            # an allocation history: acc = Capacities(); acc = acc + x for every x
+            acc = Capacities()
+            for x in l:
+                acc = acc + x
+            return acc
+
+        def posf(x, names):
+            try:
+                return x.positive_fields(names)
+            except KeyError:
+                return None
         snap = [copy.deepcopy(x.__dict__) for x in (a, b, c)]
         try:
             free = FreeCapacity(total=a, allocated=b)
@@ -81,7 +93,13 @@ class Triples(Stream):
                    (b - a).negative_fields(), (a - b).negative_fields(),
                    vals(free.free), vals(free.free + b),
                    (a - b).to_json(), str(a - b), a.to_json(), str(a),
-                   pos, True]
+                   pos, True,
+                   str(free), vals(FreeCapacity(total=a, allocated=None).free),
+                   [getattr(free, f) for f in fs],
+                   vals(hist([a, b, c])), vals(hist([c, a, b])),
+                   vals(FreeCapacity(total=hist([a, b, c]), allocated=hist([b, c])).free),
+                   vals((a - b) + b), vals(a - a),
+                   posf(a, fs[:2]), posf(a, fs[:1] + ['no_such_field']), posf(a, ['no_such_field'] + fs[:1])]
         except Exception as e:
             obs = {'err': type(e).__name__}
         mutated = [x.__dict__ for x in (a, b, c)] != snap
@@ -146,7 +164,7 @@ class Triples(Stream):
             return 'operation raised ' + obs['err']
         a, b, c = case
         (add, sub, addsub, addc, assoc1, assoc2, gt, lt, eq, eqs, eqr, negba, negab, free, freeplus,
-         js, st, ja, sa, pos, _) = obs
+         js, st, ja, sa, pos, _, fstr, fnone, fget, h1, h2, hfree, subadd, subself, pos2, posk1, posk2) = obs
         if addsub != a:
             return '(a+b)-b != a'
         if add != addc:
@@ -166,6 +184,23 @@ class Triples(Stream):
             return 'negative fields not reported by name'
         if not eqr or eq != eqs or eq != (a == b):
             return 'equality not reflexive/symmetric/exact'
+        if subadd != a or any(subself):
+            return '(a-b)+b != a or a-a != 0'
+        if fnone != a:
+            return 'FreeCapacity(total, allocated=None).free != total'
+        if fget != sub:
+            return 'FreeCapacity.<field> is not total.<field> - allocated.<field>'
+        tot = [x + y + z for x, y, z in zip(a, b, c)]
+        if h1 != tot or h2 != tot:
+            return 'an allocation history does not add up field by field / depends on the order'
+        if hfree != a:
+            return 'free + allocated != total after a history of allocations'
+        for f, fr, to in zip(self.fields(), sub, a):
+            shown = ('%s: %s/%s ' % (f, format(fr, ','), format(to, ','))) in fstr
+            if shown != (fr != 0 or to != 0):
+                return 'FreeCapacity printer drops or invents a field: ' + fstr
+        if pos2 != all(x > 0 for x in a[:2]) or posk2 is not None or posk1 != (None if a[0] > 0 else False):
+            return 'positive_fields does not report exactly the named fields'
         import json as _j
         if any(x != 0 for x in sub):
             d = _j.loads(js)
